@@ -4,3 +4,4 @@ import Dm.Props.C15
 #print axioms Dm.Props.C15.escaping_path_depends
 #print axioms Dm.Props.C15.all_templates_closed
 #print axioms Dm.Props.C15.expansions_scope_independent
+#print axioms Dm.Props.C15.escaping_extern_depends
